@@ -20,7 +20,7 @@ CHECKS = {
           'edges outside the length band, pass-compaction-move-pass-compaction chains, and the histories collapse-then-split (freed slots reused) with and without a following compaction are executed from the LLVM IR with symbolic coordinates; z3 decides which paths exist. On every path an independent oracle '
           '(triangle list only) checks closedness, consistent orientation, genus, duplicate triangles, live nodes, and the cell\'s own edge set, counts, free queues and ids; z3 proves cached normals/areas agree with the winding '
           'and that a split keeps the signed volume; the ordering key of std::set<edge> is proved injective below 2^26 ids (integer encoding validated against the real edge::hash).'),
-    note='Trusted: clang lowering (validated per run incl. whole passes), irsym + red-black-tree shim, normaliser, z3. Bounds: catalogue connectivity, <= 2 passes, <= k out-of-band edges per pass (k=1 quick, 2 thorough), passes with swapping disabled. Assumption: pre-state from the real constructor in generic position.',
+    note='Trusted: clang lowering (validated per run incl. whole passes), irsym + red-black-tree shim, normaliser, z3. Bounds: catalogue connectivity, <= 2 passes, <= 1 out-of-band edge per pass on T4 and T5 (k = 2 did not finish within 25 minutes per mesh), thorough adds T6 inside the band, passes with swapping disabled. Assumption: pre-state from the real constructor in generic position.',
     technique='symbolic execution of LLVM IR with concrete topology per path + independent topological oracle + z3 (path feasibility, geometric obligations, integer key injectivity)',
     design='3/C01'),
  'C11': dict(
@@ -94,7 +94,7 @@ CHECKS = {
  'C06': dict(
     level='other',
     text=('The real run() of contact models 0, 1 and 2 (face list, update_face_aabbs, store_face_in_uspg, per-node voxel lookup, aabb_intersection_check) executes from the LLVM IR on a two/three-cell tissue whose query node p is symbolic in boxes that straddle voxel boundaries '
-          '(three placements: at, far from, and straddling the origin; two cut-off settings; 8 sub-boxes each, 27 thorough). irsym records every (node, face) pair handed to the contact rules; per path z3 proves for all node/face pairs of different cells: not handed over => the node lies outside the face box padded by the cut-off. '
+          '(three placements: at, far from, and straddling the origin; two cut-off settings; 8 sub-boxes each; the thorough tier adds placements, all three models for every exploration kind and a second box for the unused-slot cell). irsym records every (node, face) pair handed to the contact rules; per path z3 proves for all node/face pairs of different cells: not handed over => the node lies outside the face box padded by the cut-off. '
           'Further explorations: persistent cell ids ahead of the list positions (no node may be handed to a face of its own cell), a cell with unused face slots (octahedron with a collapsed edge; the harness lists the real order of the face list of the model; memory reports of the broad phase are candidates), and the SAME model object run twice (as the solver does every time step) and adds: no pair is handed over more than once in one run. Models of failed obligations are replayed natively against a fresh model with one voxel per axis. Exact reals; many-cell tissues and symbolic cut-offs are not covered.'),
     note='Trusted: clang lowering (validated per run incl. the reference run), irsym (OpenMP sequential model), exact polynomial normal form in p, z3. The narrow phase runs as is (C05/C07 are about it).',
     technique='symbolic execution of LLVM IR (whole contact-model run) with recorded hand-overs; z3 (linear real arithmetic + to_int); native differential replay against a single-voxel grid',
